@@ -249,6 +249,25 @@ def run(ctx):
                 if any(summ[k] != ssum[k] for k in key):
                     fail("disjoint-arguments-totals", "%s: summary %s, serial run on the whole tree %s" % (case, summ, ssum), case)
             table.append({"case": case, "exit": rc, "summary": summ})
+    # ---- one dense directory: the controller lists it while the workers create and rename their temporary files in it
+    def dense_run(args):
+        t = fh.Tree()
+        try:
+            for i in range(1500 if ctx.tier == "quick" else 8000):
+                t.add_file("dense/lib%05d.a" % i, fc.ar([("m.o/", 1700000000 + i, 1000, 1000, 100644, b"x")]), mtime_ns=MT)
+            rc, out = fh.run_cli(args + [t.path("dense")], epoch=samples.EPOCH, timeout=600)
+            return rc, fh.parse_summary(out), out
+        finally:
+            t.remove()
+    drc, dsum, _ = dense_run([])
+    runs += 1
+    for n in ([8, 8, 3] if ctx.tier == "quick" else [8, 8, 8, 3, 16, 16, 40]):
+        rc, summ, out = dense_run(["-j%d" % n])
+        runs += 1
+        case = "-j%d on one directory with %s files" % (n, dsum and dsum["files"])
+        if rc != drc or summ is None or any(summ[k] != dsum[k] for k in ("processed", "modified", "replaced", "rewritten", "unsupported", "errors")):
+            fail("dense-directory", "%s: exit %d summary %s; serial: exit %d summary %s; %s" % (case, rc, summ, drc, dsum, " | ".join(l for l in out.split("\n") if "failed" in l)[:300]), case)
+        table.append({"case": case, "exit": rc, "summary": summ})
     # ---- the protocol itself: observed schedules are runs of the model (Multi.v), every job once, one quit and one result per worker
     mlines, protos = [], []
     for i, n in enumerate([2, 5] if ctx.tier == "quick" else [1, 2, 3, 5, 9, 17]):
